@@ -44,6 +44,8 @@ type buildOpts struct {
 	each func(s stackage.Stack, path string)
 	// after is called once the stack's elements have been pushed
 	after func(s stackage.Stack, path string)
+	// ptrs collects the pointer variables created for "PS" / "CPS" nodes (so that a caller can re-point them)
+	ptrs *[]*stackage.Stack
 }
 
 func (n node) buildStack(path string, o *buildOpts) stackage.Stack {
@@ -103,6 +105,21 @@ func (n node) build(path string, o *buildOpts) any {
 		return stackage.Cond("kw"+path, stackage.Ne, n.buildStack(path, o))
 	case "CA":
 		return stackage.Cond("kw"+path, stackage.Ge, StackAlias(n.buildStack(path, o)))
+	case "PI": // the address of an interface variable that holds a Stack: a leaf (nothing says one may look through it)
+		var v any = n.buildStack(path, o)
+		return &v
+	case "CPI":
+		var v any = n.buildStack(path, o)
+		return stackage.Cond("kw"+path, stackage.Eq, &v)
+	case "PS", "CPS": // a pointer to a Stack variable, as element / as a Condition's expression
+		v := n.buildStack(path, o)
+		if o != nil && o.ptrs != nil {
+			*o.ptrs = append(*o.ptrs, &v)
+		}
+		if n.T == "CPS" {
+			return stackage.Cond("kw"+path, stackage.Le, &v)
+		}
+		return &v
 	case "CSE": // a Condition over a Stack that was first built incomplete and completed afterwards: valid, but
 		// the error recorded by Cond is still there
 		return stackage.Cond("", stackage.Ne, n.buildStack(path, o)).SetKeyword("kw" + path)
